@@ -269,6 +269,11 @@ class TracedList(list):
         self.sched.log(self.tag + "-")
         return r
 
+    def __delitem__(self, key):
+        self.sched.sync(self.tag + "d")
+        list.__delitem__(self, key)
+        self.sched.log(self.tag + "d")
+
     def extend(self, xs):
         xs = list(xs)
         self.sched.sync(self.tag + "e")
